@@ -184,6 +184,8 @@ def run_job(job, work, tier, log):
             cmd += ["--external-sat-solver", "kissat"]
         elif job.solver in ("cvc5", "z3"):
             cmd += ["--" + job.solver]
+        elif job.solver == "cadical" or (job.solver is None and os.environ.get("VERIF_DEFAULT_SOLVER") == "cadical"):
+            cmd += ["--sat-solver", "cadical"]
         outp = os.path.join(jw, "out_%s.json" % tag)
         with open(outp, "wb") as fo:
             rc, _, err, secs = sh(cmd, timeout=job.timeout, stdout=fo)
@@ -202,7 +204,22 @@ def run_job(job, work, tier, log):
 
     t0 = time.time()
     b = build([], "main")
-    res, secs = cbmc(b, ["--trace"], "main")
+    res, secs = cbmc(b, [], "main")
+    failing = [r.get("property") for r in res if r.get("status") == "FAILURE"]
+    if failing:
+        # second pass for counterexample traces, only for the failed obligations (at most 12)
+        extra = []
+        for pn in failing[:12]:
+            extra += ["--property", pn]
+        try:
+            res_t, secs_t = cbmc(b, ["--trace"] + extra, "trace")
+            traces = {r.get("property"): r.get("trace") for r in res_t if r.get("status") == "FAILURE"}
+            for r in res:
+                if r.get("property") in traces:
+                    r["trace"] = traces[r.get("property")]
+            secs += secs_t
+        except ToolProblem:
+            pass
     if not res:
         raise ToolProblem("job %s generated zero obligations" % job.name)
     # anonymous "assertion" obligations (loop-contract checks of for(;;) loops): fetch their expressions
@@ -390,7 +407,7 @@ def finish(pid, tier, seed, mod, jobs, results, problems, work, wall):
                         "replaced_by_contract": j.replace, "loop_contracts": j.loops,
                         "obligations": len(r["obligations"]), "discharged": len(oks),
                         "solver_s": r["solver_s"], "wall_s": r["wall_s"],
-                        "backend": j.solver or "minisat (cbmc built-in)",
+                        "backend": j.solver or ("cadical (cbmc built-in)" if os.environ.get("VERIF_DEFAULT_SOLVER") == "cadical" else "minisat (cbmc built-in)"),
                         "bounded": j.bounded, "sentinel": r["sentinel"], "cover": r["cover"],
                         "extracted": r["extracted"], "note": j.note,
                         "config": j.defines})
